@@ -120,8 +120,9 @@ def kw_lemma(words):
 
 
 def main():
+    kw('group')
     out = ['# >>> generated by tools/gen_defs.py (oracle table there) - do not edit by hand']
-    words = []
+    words = ['list']
     for c in T:
         line = lit(c['word'])
         for a in c['args']:
